@@ -947,6 +947,34 @@ theorem setters_refusal (o : Obj K) (x : List K) (d : List (V3 K)) :
   unfold Obj.setX? Obj.setD?
   cases xSetter? x <;> cases dSetter? d <;> simp [Obj.apply]
 
+/-- the normalised arctangent profile (`normalize=True, shift=True`) starts EXACTLY at zero disregistry, on every grid, for every
+    Burgers vector, centre and half-width and whatever `arctan` returns: the end disregistry the half-width clause holds fixed. -/
+theorem arctan_normalized_starts_at_zero (atan : K → K) (pi : K) (x : List K) (hx : x ≠ []) (b : V3 K) (center hw normB normLast : K) :
+    (pnArctanDisregistry atan pi x b center hw true true normB normLast).headD v3zero = v3zero := by
+  cases x with
+  | nil => exact absurd rfl hx
+  | cons a l =>
+    simp only [pnArctanDisregistry, if_true, List.map_cons, List.headD_cons]
+    ext <;> simp [V3.map, v3zero, sub_x, sub_y, sub_z]
+
+/-- … and ends at a vector of length `|burgers|`: if `normLast` is the length of the raw end-to-end difference (`normLast² = |δ[-1] − δ[0]|²`,
+    non-zero), the last row of the normalised profile has squared length `normB²`. -/
+theorem arctan_normalized_end_length (atan : K → K) (pi : K) (x : List K) (b : V3 K) (center hw normB normLast : K) (hn : normLast ≠ 0)
+    (raw : List (V3 K)) (hraw : raw = x.map (fun xi => V3.smul (atan ((xi - center) / hw)) (b.map (· / pi)) + b.map (· / two)))
+    (hx : raw ≠ [])
+    (hlen : V3.normSq (raw.getLastD v3zero - raw.headD v3zero) = normLast * normLast) :
+    V3.normSq ((pnArctanDisregistry atan pi x b center hw true true normB normLast).getLastD v3zero) = normB * normB := by
+  simp only [pnArctanDisregistry, if_true, ← hraw]
+  have hne : (raw.map (· - raw.headD v3zero)).map (fun v => v.map (fun t => t * normB / normLast)) ≠ [] := by simpa using hx
+  rw [List.getLastD_eq_getLast?, List.getLast?_eq_some_getLast hne, Option.getD_some, List.getLast_map, List.getLast_map]
+  have h2 : raw.getLastD v3zero = raw.getLast hx := by
+    rw [List.getLastD_eq_getLast?, List.getLast?_eq_some_getLast hx, Option.getD_some]
+  rw [h2] at hlen
+  set w := raw.getLast hx - raw.headD v3zero with hw'
+  have : V3.normSq (w.map (fun t => t * normB / normLast)) = V3.normSq w * (normB * normB) / (normLast * normLast) := by
+    simp only [V3.normSq, V3.dot, V3.map]; field_simp
+  rw [this, hlen]; field_simp
+
 end refusalThms
 
 /-! ## non-vacuity: the hypotheses of `E_interpolates` are satisfiable with non-constant data -/
